@@ -47,7 +47,7 @@ def truth_pending(nd):
         elif not served_in_this_visit(nd, ind) and not ind.is_blocked:
             if finite and getattr(nd, "reneging", False) and ind.reneging_date is not False and not O.isinf(ind.reneging_date):
                 out.append((ind.reneging_date, "renege", ind.id_number))
-            if getattr(nd, "class_change_time", False) and ind.class_change_date is not False and not O.isinf(ind.class_change_date):
+            if finite and getattr(nd, "dynamic_classes", False) and ind.class_change_date is not False and not O.isinf(ind.class_change_date):
                 out.append((ind.class_change_date, "class_change", ind.id_number))
     return out
 
